@@ -52,7 +52,57 @@ type bindCase struct {
 	Blk    bblkJ   `json:"blk"`
 	Expect string  `json:"expect"`
 	Tv     []btvJ  `json:"tv"`
+	Wr     []bwrJ  `json:"wr"`
 	NT     bool    `json:"nt"`
+}
+
+// which fields a successful copy writes (tree parallel to the descriptor)
+type bwrJ struct {
+	W   bool     `json:"w"`
+	Sub [][]bwrJ `json:"sub"`
+}
+
+// stale fills every settable field with a value no case assigns
+func stale(v reflect.Value) {
+	for j := 0; j < v.NumField(); j++ {
+		f := v.Field(j)
+		if !f.CanSet() {
+			continue
+		}
+		switch f.Kind() {
+		case reflect.Int:
+			f.SetInt(70)
+		case reflect.String:
+			f.SetString("prev")
+		case reflect.Bool:
+			f.SetBool(true)
+		case reflect.Float64:
+			f.SetFloat(1.25)
+		case reflect.Interface:
+			f.Set(reflect.ValueOf("prevany"))
+		case reflect.Struct:
+			stale(f)
+		}
+	}
+}
+
+// writtenDiffer compares only what the specification says a copy writes
+func writtenDiffer(got, want reflect.Value, wr []bwrJ, path string) string {
+	for i := range wr {
+		if i >= got.NumField() {
+			break
+		}
+		name := path + got.Type().Field(i).Name
+		if wr[i].W && !reflect.DeepEqual(got.Field(i).Interface(), want.Field(i).Interface()) {
+			return fmt.Sprintf("field %s of a reused target is %#v after the copy, the block has %#v", name, got.Field(i).Interface(), want.Field(i).Interface())
+		}
+		if len(wr[i].Sub) == 1 && got.Field(i).Kind() == reflect.Struct {
+			if d := writtenDiffer(got.Field(i), want.Field(i), wr[i].Sub[0], name+"."); d != "" {
+				return d
+			}
+		}
+	}
+	return ""
 }
 
 // declared types for the type-name rule (reflect.StructOf can only make anonymous types); their shape is re-checked against
@@ -399,6 +449,31 @@ func judgeBind(c *bindCase, st reflect.Type, path string, run func(target any) e
 			if !reflect.DeepEqual(after, want) {
 				return fmt.Sprintf("target %+v, specification %+v", after, want), "target-differs", o
 			}
+			// the same copy into a target that already holds other values: what the copy writes must arrive all the same
+			if len(c.Wr) > 0 {
+				p := reflect.New(st)
+				stale(p.Elem())
+				var err2 error
+				func() {
+					defer func() {
+						if r := recover(); r != nil {
+							o.Panic, o.Site = fmt.Sprint(r), panicSite()
+						}
+					}()
+					err2 = run(p.Interface())
+				}()
+				if o.Panic != "" {
+					return "panic with a reused target: " + o.Panic, "panic:" + o.Site, o
+				}
+				if err2 != nil {
+					o.Err = err2.Error()
+					return "error for a storable block when the target is reused: " + o.Err, "error-for-nil", o
+				}
+				if d := writtenDiffer(p.Elem(), reflect.ValueOf(want), c.Wr, ""); d != "" {
+					o.Target = fmt.Sprintf("%+v", p.Elem().Interface())
+					return d, "reused-target-differs", o
+				}
+			}
 		case "ptr-slice":
 			want := reflect.MakeSlice(reflect.SliceOf(st), c.NBlk, c.NBlk)
 			for i := 0; i < c.NBlk; i++ {
@@ -481,7 +556,7 @@ func replayBind(args []string) int {
 	mine := func(shape string) bool {
 		switch only {
 		case "c05":
-			return shape == "error-for-nil" || shape == "target-differs"
+			return shape == "error-for-nil" || shape == "target-differs" || shape == "reused-target-differs"
 		case "c15":
 			// (a value stored in a field other than the corresponding one is "nil without having stored it" too)
 			return strings.HasPrefix(shape, "panic:") || shape == "nil-for-error" || shape == "slice-changed-on-error" || shape == "target-differs"
